@@ -21,9 +21,13 @@ def is_mutable_value(e: ast.AST | None) -> bool:
         return False
     if isinstance(e, (ast.List, ast.Dict, ast.Set, ast.ListComp, ast.DictComp, ast.SetComp)):
         return True
+    if isinstance(e, ast.GeneratorExp):
+        return True  # an iterator: consuming it is a state change
     if isinstance(e, ast.Call):
         d = dotted(e.func) or ""
         last = d.split(".")[-1]
+        if d.startswith("itertools.") or last in ("iter", "count", "cycle", "map", "filter", "zip", "enumerate", "reversed", "open"):
+            return True  # iterators and files are consumed by use
         if last in ("list", "dict", "set", "defaultdict", "OrderedDict", "deque", "Counter", "Lock", "RLock", "bytearray"):
             return True
         if last and last[0].isupper() and last not in ("TypeVar", "NewType", "Union", "Optional", "Enum", "NamedTuple", "Literal"):
@@ -102,10 +106,14 @@ def class_cells(repo: Repo) -> list[Cell]:
     return out
 
 
-def _mutation_of(n: ast.AST, pred: Any) -> ast.AST | None:
+def _mutation_of(n: ast.AST, pred: Any, cell_of: Any = None) -> ast.AST | None:
     """If statement/expression n mutates an object selected by pred(expr) -> return the site."""
     if isinstance(n, ast.Call) and isinstance(n.func, ast.Attribute) and n.func.attr in MUTATORS and pred(n.func.value):
         return n
+    if isinstance(n, ast.Call) and isinstance(n.func, ast.Name) and n.func.id == "next" and n.args and pred(n.args[0]):
+        return n  # advancing a shared iterator
+    if isinstance(n, (ast.For, ast.comprehension)) and cell_of is not None and pred(n.iter) and _is_iterator_cell(cell_of(n.iter)):
+        return n.iter  # iterating a shared iterator consumes it
     if isinstance(n, (ast.Assign, ast.AugAssign, ast.AnnAssign)):
         tgts = n.targets if isinstance(n, ast.Assign) else [n.target]
         for t in tgts:
@@ -117,6 +125,16 @@ def _mutation_of(n: ast.AST, pred: Any) -> ast.AST | None:
             if isinstance(t, ast.Subscript) and pred(_root_sub(t)):
                 return n
     return None
+
+
+def _is_iterator_cell(c: Any) -> bool:
+    v = getattr(c, "value", None)
+    if isinstance(v, ast.GeneratorExp):
+        return True
+    if isinstance(v, ast.Call):
+        d = dotted(v.func) or ""
+        return d.startswith("itertools.") or d.split(".")[-1] in ("iter", "count", "cycle", "map", "filter", "zip", "enumerate", "reversed", "open")
+    return False
 
 
 def _root_sub(e: ast.AST) -> ast.AST:
@@ -182,7 +200,7 @@ def fill_writes(repo: Repo, cells: list[Cell]) -> None:
         for n in walk_no_nested(f.node):
             # module cells
             site = _mutation_of(n, lambda e: isinstance(e, (ast.Name, ast.Attribute)) and not (isinstance(e, ast.Name) and e.id in local_names)
-                                and mod_pred(e) is not None)
+                                and mod_pred(e) is not None, mod_pred)
             if site is not None:
                 tgt_e = n.func.value if isinstance(n, ast.Call) else None  # type: ignore[union-attr]
                 for e in ast.walk(n):
@@ -201,7 +219,7 @@ def fill_writes(repo: Repo, cells: list[Cell]) -> None:
                 c = mod_pred(n)
                 if c is not None:
                     c.runtime_reads.append((f, n))
-            site = _mutation_of(n, lambda e: cls_pred(e) is not None)
+            site = _mutation_of(n, lambda e: cls_pred(e) is not None, cls_pred)
             if site is not None:
                 for e in ast.walk(n):
                     c = cls_pred(e) if isinstance(e, (ast.Attribute, ast.Name)) else None
